@@ -10,6 +10,9 @@ from cell_type_mapper.marker_selection.marker_array import (
     MarkerGeneArray)
 
 
+import cell_type_mapper.utils.verif_hooks as verif_hooks
+
+
 def select_all_markers(
         marker_cache_path,
         query_gene_names,
@@ -207,6 +210,8 @@ def _marker_selection_worker(
         summary_log,
         tmp_dir=None):
 
+    verif_hooks.gate('select.before', parent=str(parent_node))
+
     leaf_pair_list = taxonomy_tree.leaves_to_compare(
         parent_node=parent_node)
 
@@ -237,4 +242,8 @@ def _marker_selection_worker(
 
     print(f'found {len(marker_genes)} markers at parent node: {parent_node}')
 
+    verif_hooks.gate('select.mid', parent=str(parent_node))
+
     output_dict[parent_node] = marker_genes
+
+    verif_hooks.gate('select.after', parent=str(parent_node))
